@@ -628,6 +628,7 @@ func famTyped(dir string, seed int64, tier string) {
 	typedEmbedded(repU)
 	typedEmbeddedPtr(repU)
 	typedDualHook(repU)
+	typedNilHookInInterface(repM)
 	typedDeprecationMemo(repU)
 	typedMore(dir, seed, tier, repU, wU)
 	typedTargeted(repU, wU, r)
